@@ -1,6 +1,6 @@
 (* C01 — property theorems only (each closed by `exact <lemma>` and followed by Print Assumptions). *)
 From Coq Require Import List NArith ZArith Bool Permutation.
-From MW Require Import Common.Str C01.Model C01.Proofs C01.Gen_resolve C01.ProofsGen C01.Passes C01.ProofsPasses C01.ProofsPassesAnalyze C01.PassesPre C01.ProofsPassesPre C01.PassesTable C01.ProofsPassesTable.
+From MW Require Import Common.Str C01.Model C01.Proofs C01.Gen_resolve C01.ProofsGen C01.Passes C01.ProofsPasses C01.ProofsPassesAnalyze C01.PassesPre C01.ProofsPassesPre C01.PassesTable C01.ProofsPassesTable C01.PassesPost C01.ProofsPassesPost C01.Gen_post C01.ProofsPostGen.
 Import ListNotations.
 
 (* resolve_entity (util.py:212) with the except clause read from /repo on this run: for EVERY int() (any function
@@ -162,3 +162,48 @@ Example C01_table_examples :
   /\ make_cell [GTok TRowNode 1%N []; GTok (TOther false) 2%N []] 0 2 0 false = PRaise PAttr.
 Proof. exact table_examples. Qed.
 Print Assumptions C01_table_examples.
+
+(* ------------------------------------------------------------------------------------------------------------------
+   The post-processor remove_boilerplate (post_processors.py:31-49; model in C01/PassesPost.v), run by parse_string on
+   the finished article (uparser.py:102).  post_cfg = the attribute through which the class of a <div> is looked up
+   and the exception classes of the except clause, both read from /repo on this run (vt/gen/c01_post.py, fail-closed).
+   For EVERY article tree - any nesting, any mix of node kinds, <div> nodes whose class is absent, an int (parse_params
+   stores int(value) whenever int() accepts the text) or a str with or without 'boilerplate' - the call returns a tree:
+   neither the TypeError of `'boilerplate' in <int>` nor the AttributeError of the lookup escapes, and the recursion
+   is bounded by the height of the tree. *)
+Theorem C01_remove_boilerplate_total : forall n, exists n', rb post_cfg (height n) n = ROk n'.
+Proof. exact remove_boilerplate_total_gen. Qed.
+Print Assumptions C01_remove_boilerplate_total.
+
+(* the same for every configuration the translator can produce that passes the computed test cfg_safe *)
+Theorem C01_remove_boilerplate_total_safe_cfg : forall c, cfg_safe c = true ->
+  forall n, exists n', rb c (height n) n = ROk n'.
+Proof. exact rb_total. Qed.
+Print Assumptions C01_remove_boilerplate_total_safe_cfg.
+
+(* the root keeps its kind and never gains children *)
+Theorem C01_remove_boilerplate_root : forall c f k ch n', rb c (S f) (Node k ch) = ROk n' ->
+  exists ch', n' = Node k ch' /\ length ch' <= length ch.
+Proof. exact rb_root. Qed.
+Print Assumptions C01_remove_boilerplate_root.
+
+(* looking the class up in the attribute dict (child.vlist) makes the function partial whatever the except clause
+   catches, because the `in` test is outside the try: <div class=5> three levels down raises TypeError *)
+Theorem C01_remove_boilerplate_vlist_refuted : forall caught,
+  let n := Node KOtherNode [Node KOtherNode [Node (KDiv (Some AInt)) [Node KText []]]] in
+  rb {| cfg_lookup := LVlist; cfg_caught := caught |} (height n) n = RRaise PTypeError.
+Proof. exact rb_vlist_raises. Qed.
+Print Assumptions C01_remove_boilerplate_vlist_refuted.
+
+(* non-vacuity: as the code stands nothing is deleted; with the attribute dict a boilerplate div goes with its subtree
+   and a numeric class raises; fuel below the height runs out *)
+Example C01_remove_boilerplate_examples :
+  let t := Node KOtherNode [Node (KDiv (Some (AStr true))) [Node KText []]; Node KText [];
+                        Node KTagNode [Node (KDiv (Some AInt)) []]] in
+  let t2 := Node KOtherNode [Node (KDiv (Some (AStr true))) [Node KText []]; Node KText []] in
+  rb {| cfg_lookup := LAbsent; cfg_caught := [PAttributeError] |} (height t) t = ROk t /\
+  rb {| cfg_lookup := LVlist; cfg_caught := [PAttributeError] |} (height t2) t2 = ROk (Node KOtherNode [Node KText []]) /\
+  rb {| cfg_lookup := LVlist; cfg_caught := [PAttributeError] |} (height t) t = RRaise PTypeError /\
+  rb {| cfg_lookup := LAbsent; cfg_caught := [PAttributeError] |} 2 t = RFuel.
+Proof. exact rb_examples. Qed.
+Print Assumptions C01_remove_boilerplate_examples.
